@@ -520,6 +520,23 @@ def probe_kind_shapes():
         {"name": "V1", "vkind": "named", "ignored": False, "fields": [mk_field(("opt", ("param", "T")), True)]},
     ]
     out.append(("generic_enum", s))
+    # shapes in which nothing is left to trace: the Drop guard must be emitted all the same
+    s = new_shape(0, "enum", "probe")
+    s["variants"] = [
+        {"name": "V0", "vkind": "unit", "ignored": True, "fields": []},
+        {"name": "V1", "vkind": "tuple", "ignored": True, "fields": [mk_field(L, False)]},
+        {"name": "V2", "vkind": "named", "ignored": True, "fields": [mk_field(L, False), mk_field(L, True)]},
+    ]
+    out.append(("enum_all_ignored", s))
+    s = new_shape(0, "enum", "probe")
+    s["variants"] = [{"name": "V0", "vkind": "tuple", "ignored": True, "fields": [mk_field(L, False)]}]
+    out.append(("enum_single_ignored", s))
+    s = new_shape(0, "named", "probe")
+    s["fields"] = [mk_field(L, True), mk_field(L, True)]
+    out.append(("named_all_ignored", s))
+    s = new_shape(0, "tuple", "probe")
+    s["fields"] = [mk_field(L, True)]
+    out.append(("tuple_all_ignored", s))
     return out
 
 
